@@ -270,6 +270,17 @@ func guaranteeLabel(s Source, names ...string) Source {
 	return s
 }
 
+// Labels used in positive matchers of the selector are guaranteed to be present,
+// unless something between the selector and this point (aggregation, join) removed them.
+func guaranteeSelectorLabels(s Source) Source {
+	for _, name := range labelsFromSelectors(guaranteedLabelsMatches, s.Selector) {
+		if s.CanHaveLabel(name) {
+			s = guaranteeLabel(s, name)
+		}
+	}
+	return s
+}
+
 func restrictGuaranteedLabels(s Source, names []string) Source {
 	todo := []string{}
 	for _, name := range s.GuaranteedLabels {
@@ -498,22 +509,22 @@ func parsePromQLFunc(s Source, expr string, n *promParser.Call) Source {
 	case "abs", "sgn", "acos", "acosh", "asin", "asinh", "atan", "atanh", "cos", "cosh", "sin", "sinh", "tan", "tanh":
 		// No change to labels.
 		s.Returns = promParser.ValueTypeVector
-		s = guaranteeLabel(s, labelsFromSelectors(guaranteedLabelsMatches, s.Selector)...)
+		s = guaranteeSelectorLabels(s)
 
 	case "ceil", "floor", "round":
 		// No change to labels.
 		s.Returns = promParser.ValueTypeVector
-		s = guaranteeLabel(s, labelsFromSelectors(guaranteedLabelsMatches, s.Selector)...)
+		s = guaranteeSelectorLabels(s)
 
 	case "changes", "resets":
 		// No change to labels.
 		s.Returns = promParser.ValueTypeVector
-		s = guaranteeLabel(s, labelsFromSelectors(guaranteedLabelsMatches, s.Selector)...)
+		s = guaranteeSelectorLabels(s)
 
 	case "clamp", "clamp_max", "clamp_min":
 		// No change to labels.
 		s.Returns = promParser.ValueTypeVector
-		s = guaranteeLabel(s, labelsFromSelectors(guaranteedLabelsMatches, s.Selector)...)
+		s = guaranteeSelectorLabels(s)
 
 	case "absent", "absent_over_time":
 		s.Returns = promParser.ValueTypeVector
@@ -540,7 +551,7 @@ If you're hoping to get instance specific labels this way and alert when some ta
 	case "avg_over_time", "count_over_time", "last_over_time", "max_over_time", "min_over_time", "present_over_time", "quantile_over_time", "stddev_over_time", "stdvar_over_time", "sum_over_time":
 		// No change to labels.
 		s.Returns = promParser.ValueTypeVector
-		s = guaranteeLabel(s, labelsFromSelectors(guaranteedLabelsMatches, s.Selector)...)
+		s = guaranteeSelectorLabels(s)
 
 	case "days_in_month", "day_of_month", "day_of_week", "day_of_year", "hour", "minute", "month", "year":
 		s.Returns = promParser.ValueTypeVector
@@ -558,28 +569,28 @@ If you're hoping to get instance specific labels this way and alert when some ta
 				n.PosRange,
 			)
 		} else {
-			s = guaranteeLabel(s, labelsFromSelectors(guaranteedLabelsMatches, s.Selector)...)
+			s = guaranteeSelectorLabels(s)
 		}
 
 	case "deg", "rad", "ln", "log10", "log2", "sqrt", "exp":
 		// No change to labels.
 		s.Returns = promParser.ValueTypeVector
-		s = guaranteeLabel(s, labelsFromSelectors(guaranteedLabelsMatches, s.Selector)...)
+		s = guaranteeSelectorLabels(s)
 
 	case "delta", "idelta", "increase", "deriv", "irate", "rate":
 		// No change to labels.
 		s.Returns = promParser.ValueTypeVector
-		s = guaranteeLabel(s, labelsFromSelectors(guaranteedLabelsMatches, s.Selector)...)
+		s = guaranteeSelectorLabels(s)
 
 	case "histogram_avg", "histogram_count", "histogram_sum", "histogram_stddev", "histogram_stdvar", "histogram_fraction", "histogram_quantile":
 		// No change to labels.
 		s.Returns = promParser.ValueTypeVector
-		s = guaranteeLabel(s, labelsFromSelectors(guaranteedLabelsMatches, s.Selector)...)
+		s = guaranteeSelectorLabels(s)
 
 	case "holt_winters", "predict_linear":
 		// No change to labels.
 		s.Returns = promParser.ValueTypeVector
-		s = guaranteeLabel(s, labelsFromSelectors(guaranteedLabelsMatches, s.Selector)...)
+		s = guaranteeSelectorLabels(s)
 
 	case "label_replace", "label_join":
 		// One label added to the results.
@@ -631,7 +642,7 @@ If you're hoping to get instance specific labels this way and alert when some ta
 	case "timestamp":
 		// No change to labels.
 		s.Returns = promParser.ValueTypeVector
-		s = guaranteeLabel(s, labelsFromSelectors(guaranteedLabelsMatches, s.Selector)...)
+		s = guaranteeSelectorLabels(s)
 
 	case "vector":
 		s.Returns = promParser.ValueTypeVector
